@@ -61,6 +61,8 @@ type tcase struct {
 	Data   string `json:"data"` // call data (call) / init code (create)
 	Accts  []acct `json:"accts"`
 	Class  string `json:"class"`
+
+	light bool // lattice case: no nested fingerprints, no second (heap) run
 }
 
 const (
@@ -1296,7 +1298,11 @@ func (k *tcase) request(trace bool, fuelcap int, prec string) string {
 func (ch *checker) check(k *tcase, withModel bool) *tracer {
 	c := ch.c
 	t0 := time.Now()
-	r, st := runCase(k, true, 24, 20*time.Second)
+	nested := 24
+	if k.light {
+		nested = 0
+	}
+	r, st := runCase(k, true, nested, 20*time.Second)
 	t := r.tr
 	tGo := time.Since(t0)
 	defer func() {
@@ -1348,7 +1354,9 @@ func (ch *checker) check(k *tcase, withModel bool) *tracer {
 			c.Violate("balances-not-conserved/"+caseHash(k), fmt.Sprintf("sum of balances %v before, %v after (self-destruct to self seen: %v)", r.sumBefore, r.sumAfter, t.burn), k)
 		}
 	}
-	ch.heapCheck(k)
+	if !k.light {
+		ch.heapCheck(k)
+	}
 	// ---------------- correspondence
 	if withModel && !r.panicked && !r.timedOut {
 		fuelcap := 3000000
@@ -1663,9 +1671,11 @@ func main() {
 	}
 	g := &gen{c, c.Rng.Fork()}
 	ch.precompileStream(g)
+	ch.offsetLengthLattice(g)
 	start := time.Now()
-	budget := time.Duration(c.Scale(20, 900)) * time.Second
+	budget := time.Duration(c.Scale(16, 900)) * time.Second
 	cases := g.templates()
+	cases = append(cases, g.staticNesting()...)
 	cases = append(cases, g.selfdestructScenarios()...)
 	cases = append(cases, g.randomCases(c.Scale(900, 30000))...)
 	// deterministic shuffle, so that a time budget cuts every class alike
@@ -1689,7 +1699,7 @@ func main() {
 	// in every run whatever the load of the machine
 	rank := func(k *tcase) int {
 		switch {
-		case strings.HasPrefix(k.Class, "tmpl/static"):
+		case strings.HasPrefix(k.Class, "tmpl/static"), strings.HasPrefix(k.Class, "scn/static-nest"):
 			return 0
 		case k.Class == "scn/selfdestruct-fixed":
 			return 1
@@ -2100,4 +2110,275 @@ func (ch *checker) precompileStream(g *gen) {
 			}
 		}
 	}
+}
+
+// ---------------------------------------------------------------- the (offset, length) lattice
+
+// every instruction that takes an (offset, length) pair (or a lone offset), on a deterministic lattice whose
+// points sit where offset, length and offset+length cross 2^32, 2^63, 2^64 and 2^256, against buffers of
+// 0 / 1 / 32 bytes, in the epochs where the instruction is valid
+type latRole struct {
+	name     string
+	minEpoch int // 0 = always valid, 1 = from HF5
+	offOnly  bool
+	build    func(a *asm, off, l *big.Int)
+}
+
+func latticeRoles() []latRole {
+	copyRole := func(op byte, data bool) func(a *asm, off, l *big.Int) {
+		return func(a *asm, off, l *big.Int) {
+			if data {
+				a.push(l).push(off).pushU(0)
+			} else {
+				a.push(l).pushU(0).push(off)
+			}
+			if op == 0x3c {
+				a.pushA(addrLib2)
+			}
+			a.op(op)
+		}
+	}
+	callRole := func(op byte, in bool) func(a *asm, off, l *big.Int) {
+		return func(a *asm, off, l *big.Int) {
+			if in {
+				a.pushU(0).pushU(0).push(l).push(off)
+			} else {
+				a.push(l).push(off).pushU(0).pushU(0)
+			}
+			if op == 0xf1 || op == 0xf2 {
+				a.pushU(0)
+			}
+			a.pushA(addrLib).pushU(30000).op(op)
+		}
+	}
+	rs := []latRole{
+		{"calldatacopy-mem", 0, false, copyRole(0x37, false)}, {"calldatacopy-data", 0, false, copyRole(0x37, true)},
+		{"codecopy-mem", 0, false, copyRole(0x39, false)}, {"codecopy-data", 0, false, copyRole(0x39, true)},
+		{"extcodecopy-mem", 0, false, copyRole(0x3c, false)}, {"extcodecopy-data", 0, false, copyRole(0x3c, true)},
+		{"returndatacopy-mem", 1, false, copyRole(0x3e, false)}, {"returndatacopy-data", 1, false, copyRole(0x3e, true)},
+		{"mload", 0, true, func(a *asm, off, l *big.Int) { a.push(off).op(0x51) }},
+		{"mstore", 0, true, func(a *asm, off, l *big.Int) { a.pushU(0xabcdef).push(off).op(0x52) }},
+		{"mstore8", 0, true, func(a *asm, off, l *big.Int) { a.pushU(0xab).push(off).op(0x53) }},
+		{"calldataload", 0, true, func(a *asm, off, l *big.Int) { a.push(off).op(0x35) }},
+		{"sha3", 0, false, func(a *asm, off, l *big.Int) { a.push(l).push(off).op(0x20) }},
+		{"log0", 0, false, func(a *asm, off, l *big.Int) { a.push(l).push(off).op(0xa0) }},
+		{"log4", 0, false, func(a *asm, off, l *big.Int) { a.pushU(1).pushU(2).pushU(3).pushU(4).push(l).push(off).op(0xa4) }},
+		{"return", 0, false, func(a *asm, off, l *big.Int) { a.push(l).push(off).op(0xf3) }},
+		{"revert", 1, false, func(a *asm, off, l *big.Int) { a.push(l).push(off).op(0xfd) }},
+		{"create", 0, false, func(a *asm, off, l *big.Int) { a.push(l).push(off).pushU(0).op(0xf0) }},
+	}
+	for _, o := range []byte{0xf1, 0xf2, 0xf4, 0xfa} {
+		me := 0
+		if o == 0xfa {
+			me = 1
+		}
+		rs = append(rs, latRole{fmt.Sprintf("call-%02x-in", o), me, false, callRole(o, true)}, latRole{fmt.Sprintf("call-%02x-out", o), me, false, callRole(o, false)})
+	}
+	return rs
+}
+
+func latticePairs() [][2]*big.Int {
+	lens := []*big.Int{big.NewInt(0), big.NewInt(1), big.NewInt(2), big.NewInt(31), big.NewInt(32), big.NewInt(33), pow2(32), addk(pow2(64), -1), pow2(64), addk(pow2(256), -1)}
+	var out [][2]*big.Int
+	seen := map[string]bool{}
+	for _, l := range lens {
+		sub := func(base *big.Int, k int64) *big.Int {
+			v := new(big.Int).Sub(base, l)
+			v.Add(v, big.NewInt(k))
+			if v.Sign() < 0 {
+				v.Add(v, pow2(256))
+			}
+			return v.Mod(v, pow2(256))
+		}
+		offs := []*big.Int{big.NewInt(0), big.NewInt(1), big.NewInt(31), big.NewInt(32), addk(pow2(32), -1), pow2(32), pow2(63),
+			sub(pow2(64), -1), sub(pow2(64), 0), sub(pow2(64), 1), addk(pow2(64), -1), pow2(64), addk(pow2(64), 1), pow2(255), sub(pow2(256), 0), addk(pow2(256), -1)}
+		for _, o := range offs {
+			key := o.Text(16) + "/" + l.Text(16)
+			if !seen[key] {
+				seen[key] = true
+				out = append(out, [2]*big.Int{o, l})
+			}
+		}
+	}
+	return out
+}
+
+func (ch *checker) offsetLengthLattice(g *gen) {
+	pairs := latticePairs()
+	epochs := []int64{10000, 30000, 40000}
+	sizes := []int{0, 1, 32}
+	n := 0
+	for ri, role := range latticeRoles() {
+		seenOff := map[string]bool{}
+		for pi, pr := range pairs {
+			off, l := pr[0], pr[1]
+			if role.offOnly {
+				if seenOff[off.Text(16)] {
+					continue
+				}
+				seenOff[off.Text(16)] = true
+			}
+			full := role.name == "returndatacopy-data" || ch.c.Thorough()
+			if !full && (pi+ri)%2 == 1 {
+				continue // quick tier: every other point for the roles no bug has been seeded into yet
+			}
+			for bi, size := range sizes {
+				if !full && bi != (pi+ri)%3 {
+					continue
+				}
+				for ei, h := range epochs {
+					if ei < role.minEpoch {
+						continue
+					}
+					if !ch.c.Thorough() && ei != role.minEpoch+(pi+bi)%(3-role.minEpoch) {
+						continue
+					}
+					a := &asm{}
+					if size == 32 {
+						a.pushU(0x1234).pushU(0).op(0x52) // 32 bytes of memory
+					}
+					if strings.HasPrefix(role.name, "returndatacopy") {
+						a.pushU(0).pushU(0).pushU(0).pushU(0).pushU(0).pushA(addrLib).pushU(30000).op(0xf1, 0x50) // fills the return buffer
+					}
+					role.build(a, off, l)
+					a.op(0x59).pushU(0).op(0x52).pushU(32).pushU(0).op(0xf3) // return MSIZE
+					ret := (&asm{}).pushU(uint64(size)).pushU(0).op(0xf3).bytes()
+					ext := make([]byte, size)
+					for i := range ext {
+						ext[i] = 0x5b
+					}
+					k := &tcase{Kind: "call", Height: h, Gas: 1000000, Value: "0x0", Caller: ha(addrCaller), Target: ha(addrMain), Data: hexb(g.r.Bytes(size)),
+						Accts: baseAccts(a.bytes(), ret, ext), Class: "lattice/" + role.name, light: true}
+					ch.check(k, true)
+					n++
+				}
+			}
+		}
+	}
+	ch.c.Note("offset/length lattice: %d cases over %d instruction roles x %d (offset, length) points x buffers of 0/1/32 bytes", n, len(latticeRoles()), len(pairs))
+}
+
+// ---------------------------------------------------------------- nested static contexts
+
+var staticLevels = []common.Address{
+	common.HexToAddress("0x5100000000000000000000000000000000000011"), common.HexToAddress("0x5200000000000000000000000000000000000012"),
+	common.HexToAddress("0x5300000000000000000000000000000000000013"), common.HexToAddress("0x5400000000000000000000000000000000000014")}
+
+// a write instruction: 0 none, 1 SSTORE, 2 LOG0, 3 CREATE, 4 SELFDESTRUCT, 5 CALL with value
+func emitWrite(a *asm, w int, level int) {
+	switch w {
+	case 1:
+		a.pushU(uint64(10 + level)).pushU(7).op(0x55)
+	case 2:
+		a.pushU(0).pushU(0).op(0xa0)
+	case 3:
+		a.pushU(0).pushU(0).pushU(0).op(0xf0, 0x50)
+	case 4:
+		a.pushA(addrCaller).op(0xff)
+	case 5:
+		a.pushU(0).pushU(0).pushU(0).pushU(0).pushU(1).pushA(addrEmpty).op(0x5a, 0xf1, 0x50)
+	}
+}
+
+type nestLevel struct {
+	before, after int  // write instructions around the inner call
+	kind          byte // inner call instruction (0 = no inner call)
+	target        common.Address
+}
+
+func nestCode(l nestLevel, level int) []byte {
+	a := &asm{}
+	emitWrite(a, l.before, level)
+	if l.kind != 0 {
+		a.pushU(0).pushU(0).pushU(0).pushU(0)
+		if l.kind == 0xf1 || l.kind == 0xf2 {
+			a.pushU(0)
+		}
+		a.pushA(l.target).op(0x5a, l.kind, 0x50)
+	}
+	emitWrite(a, l.after, level)
+	a.op(0x00)
+	return a.bytes()
+}
+
+// main -(STATICCALL or CALL)-> S1 -> S2 ... : every call kind in every order below a static frame, targets
+// that are a contract / a precompile / an empty account / a failing frame, and write instructions before
+// and after the inner call at every level.  (The interpreter keeps readOnly as mutable state that
+// StaticCall sets and resets: what a frame may do AFTER an inner call came back is the point.)
+func (g *gen) staticNesting() []*tcase {
+	r := g.r
+	var out []*tcase
+	kinds := []byte{0xf1, 0xf2, 0xf4, 0xfa}
+	emit := func(top byte, levels []nestLevel, class string, heights []int64) {
+		main := &asm{}
+		main.pushU(0).pushU(0).pushU(0).pushU(0)
+		if top == 0xf1 {
+			main.pushU(0)
+		}
+		main.pushA(staticLevels[0]).op(0x5a, top, 0x50)
+		main.pushU(2).pushU(1).op(0x55).op(0x00) // a write of its own once the static frame is back
+		accts := baseAccts(main.bytes(), libWriter(), libReverter())
+		for i, l := range levels {
+			accts = append(accts, acct{Addr: ha(staticLevels[i]), Nonce: 1, Balance: "0xa", Code: hexb(nestCode(l, i+1)), Storage: map[string]string{"0x7": "0x1"}})
+		}
+		for _, h := range heights {
+			out = append(out, &tcase{Kind: "call", Height: h, Gas: 2000000, Value: "0x0", Caller: ha(addrCaller), Target: ha(addrMain), Data: "-", Accts: accts, Class: class})
+		}
+	}
+	post := []int64{36050 + int64(r.Intn(50000))}
+	both := []int64{22800 + int64(r.Intn(13000)), 36050 + int64(r.Intn(50000))}
+	type tgt struct {
+		addr common.Address
+		l2   *nestLevel
+	}
+	targets := []tgt{{staticLevels[1], &nestLevel{}}, {staticLevels[1], &nestLevel{after: 1}}, {common.BytesToAddress([]byte{4}), nil}, {addrEmpty, nil}, {addrNone, nil}, {addrLib2, nil}}
+	i := 0
+	for _, k1 := range kinds {
+		for _, t := range targets {
+			for w := 1; w <= 5; w++ {
+				levels := []nestLevel{{0, w, k1, t.addr}}
+				if t.l2 != nil {
+					levels = append(levels, *t.l2)
+				}
+				hs := post
+				if i%3 == 0 {
+					hs = both
+				}
+				emit(0xfa, levels, "scn/static-nest-2", hs)
+				i++
+			}
+		}
+	}
+	for w := 1; w <= 5; w++ {
+		emit(0xfa, []nestLevel{{w, 0, 0xfa, addrLib}}, "scn/static-nest-before", both)
+		emit(0xf1, []nestLevel{{0, 0, 0xfa, staticLevels[1]}, {0, w, 0xfa, addrEmpty}}, "scn/static-nest-under-call", post)
+	}
+	for j := 0; j < g.c.Scale(60, 3000); j++ {
+		depth := 2 + r.Intn(3)
+		var levels []nestLevel
+		for d := 0; d < depth; d++ {
+			l := nestLevel{kind: kinds[r.Intn(4)]}
+			if d == depth-1 {
+				l.target = []common.Address{common.BytesToAddress([]byte{byte(1 + r.Intn(9))}), addrEmpty, addrNone, addrLib2, addrLib}[r.Intn(5)]
+				if r.Chance(20) {
+					l.kind = 0
+				}
+			} else {
+				l.target = staticLevels[d+1]
+			}
+			switch r.Intn(4) {
+			case 0:
+				l.before = 1 + r.Intn(5)
+			case 1, 2:
+				l.after = 1 + r.Intn(5)
+			}
+			levels = append(levels, l)
+		}
+		top := byte(0xfa)
+		if r.Chance(25) {
+			top = 0xf1
+		}
+		emit(top, levels, fmt.Sprintf("scn/static-nest-random-%d", depth), both[r.Intn(2):][:1])
+	}
+	return out
 }
